@@ -9,6 +9,7 @@ chemical: corpus molecules that RDKit certifies to be neutral closed-shell molec
 """
 from __future__ import annotations
 
+import json
 import random
 import warnings
 
@@ -19,6 +20,8 @@ from .common import Reporter
 
 STD = {1: {1}, 6: {4}, 7: {3}, 8: {2}, 9: {1}, 17: {1}, 35: {1}, 53: {1}, 16: {2, 6}, 15: {3, 5}}
 MODS = {"quick": {2: 1, 3: 3, 4: 200}, "thorough": {2: 1, 3: 1, 4: 12, 5: 4000}}
+# MC_Lewis: (heavy atoms, SampleMod) - every neutral closed-shell molecule of the supported elements with that many heavy atoms
+LEWIS = {"quick": {1: 1, 2: 1, 3: 1}, "thorough": {1: 1, 2: 1, 3: 1, 4: 4}}
 
 
 def certified(m):
@@ -82,6 +85,27 @@ def run(tier):
                 continue
             recs.append({"id": len(recs) + 1, "els": els, "ac": ac, "bo": as_int_matrix(bo), "charges": [int(x) for x in ch],
                          "unpaired": [int(x) for x in un], "lewis": False, "src": "matrix"})
+    # ------------------- chemical, by construction (MC_Lewis) -------------------
+    n_lewis = 0
+    lewis_keys = set()
+    for n, mod in LEWIS[tier].items():
+        cs, res = c20.tlc_cases("MC_Lewis", {"NHeavy": n, "SampleMod": mod, "NPerm": 4}, "L")
+        states += res.distinct
+        gen += res.generated
+        for c in cs:
+            n_lewis += 1
+            els, ac = c["els"], c["ac"]
+            lewis_keys.add((tuple(c["heavy"]), json.dumps(c["orders"])))
+            key = "-".join(map(str, c["heavy"]))
+            try:
+                bo, ch, un = connectivity2bond_orders(els, np.array(ac, dtype=int))
+            except Exception as e:
+                rep.violation(f"C18|lewis|raises:{type(e).__name__}|heavy={key}",
+                              f"connectivity2bond_orders raised {type(e).__name__} on a constructed closed-shell molecule", {"case": c})
+                continue
+            recs.append({"id": len(recs) + 1, "els": els, "ac": ac, "bo": as_int_matrix(bo), "charges": [int(x) for x in ch],
+                         "unpaired": [int(x) for x in un], "lewis": True, "src": f"lewis:{key}|perm{c['perm']}|direct",
+                         "structure": c["orders"]})
     # ------------------------------ chemical ------------------------------
     n_mols = 0
     n_orders = 3 if tier == "quick" else 8
@@ -149,6 +173,9 @@ def run(tier):
         clause = "structural" if not v["structural"] else "lewis"
         src = r["src"].split("|")
         sig = (f"C18|{clause}|{src[0]}|{src[-1]}" if r["lewis"] else f"C18|structural|matrix|n={len(r['els'])}")
+        if src[0].startswith("lewis:"):
+            # signature by the multiset of heavy elements and the bonds between DIFFERENT multi-valent elements involved
+            sig = f"C18|{clause}|constructed|" + src[0][6:]
         rep.violation(sig, f"bond orders for {r['src']}: clause '{clause}' of Obs_BondOrd fails", {"record": r})
     cov = {
         "states": states, "transitions": gen, "traces_validated_against_impl": len(recs),
@@ -156,11 +183,12 @@ def run(tier):
         "rule": "structural: (connectivity matrix, element list) cases from MC_BondOrd; chemical: corpus molecules certified by "
                 "RDKit x atom orders x {direct call, to_rdmol with shuffled identifiers}; every record decided by Obs_BondOrd; "
                 "distinct_nontrivial = structural cases + certified molecules",
-        "structural_cases": n_struct, "certified_molecules": sorted(names), "records": len(recs), "accepted": len(ok),
+        "structural_cases": n_struct, "constructed_lewis_cases": n_lewis, "constructed_lewis_structures": len(lewis_keys), "certified_molecules": sorted(names), "records": len(recs), "accepted": len(ok),
         "samples": [recs[0] if recs else "none", recs[-1]["src"] if recs else "none"],
     }
     return rep.finish("exploration", cov, [
-        "RDKit's kekulised structure certifies the precondition 'neutral closed-shell molecule in standard valences'",
+        "MC_Lewis constructs the precondition (a Lewis structure in standard valences exists) for every molecule with <= 3 heavy "
+        "atoms (4: sampled) of C N O S P F; RDKit's kekulised structure certifies the precondition 'neutral closed-shell molecule in standard valences'",
         "standard valences in Obs_BondOrd: H1 C4 N3 O2 halogens 1 S{2,6} P{3,5}",
         "molecules with more than 14 unsaturated atoms are not driven (the pair enumeration is combinatorial)",
     ])
